@@ -11,6 +11,7 @@ import QR.Spec.Release
 import QR.Model.QRObject
 import QR.Model.Svg
 import QR.Model.Cli
+import QR.Model.Styled
 /-
 Line-protocol driver (native executable `qrdrv`, Mathlib-free).
 One request per line: `<op> <arg> ...` (whitespace separated); one reply per line.
@@ -352,6 +353,10 @@ def handle (toks : List String) : Option String :=
         | .fail => "ok fail"
         | .ascii t l segs => s!"ok ascii {if t then 1 else 0} {l} {fmtSegList segs}"
         | .image f d l segs sink => s!"ok image {f.getD "-"} {d.getD "-"} {l} {fmtSegList segs} {match sink with | .stdout => "stdout" | .file p => "file:" ++ p}")
+  | ["applymask", back, paint, fg, pix] => do
+      let toC (s : String) : Option Colour := (parseList s).map fun l => l.map Int.ofNat
+      let back ← toC back; let paint ← toC paint; let fg ← toC fg; let pix ← toC pix
+      pure ("ok " ++ fmtList ((applyMaskPixel back paint fg pix).map Int.toNat) ++ " " ++ fmtList ((paintColour back).map Int.toNat))
   | ["spec.penalty", m] => do let m ← parseBMat m; pure ("ok " ++ toString (Spec.penalty m))
   | ["spec.n1", m] => do let m ← parseBMat m; pure ("ok " ++ toString (Spec.N1 m m.length))
   | ["spec.n2", m] => do let m ← parseBMat m; pure ("ok " ++ toString (Spec.N2 m))
